@@ -75,11 +75,14 @@ type Specs struct {
 	Lemmas   []*Lemma
 	Globals  []*GlobalDecl
 	PurePkgs map[string]bool
+	PureVars  map[string]bool // package-level func variables whose calls are assumed effect-free
+	ZeroGhost [][3]string // (type name, ghost map, value): the ghost entry of a freshly zeroed value of that type
+	Stable   map[string]bool // Struct.field of sync/atomic type assumed not to change concurrently during one call
 	Files    []string
 }
 
 func NewSpecs() *Specs {
-	return &Specs{Funcs: map[string]*FuncSpec{}, Pures: map[string]*PureFn{}, PurePkgs: map[string]bool{}}
+	return &Specs{Funcs: map[string]*FuncSpec{}, Pures: map[string]*PureFn{}, PurePkgs: map[string]bool{}, Stable: map[string]bool{}, PureVars: map[string]bool{}}
 }
 
 func parseVarDecls(s string) ([]VarDecl, error) {
@@ -379,6 +382,20 @@ func (sp *Specs) LoadFile(path string, stripPrefix string) error {
 				return fmt.Errorf("%s: global NAME TYPE", src)
 			}
 			sp.Globals = append(sp.Globals, &GlobalDecl{fs[0], fs[1]})
+		case "purevar":
+			for _, p := range strings.Fields(rest) {
+				sp.PureVars[p] = true
+			}
+		case "zeroghost":
+			fs := strings.Fields(rest)
+			if len(fs) != 3 {
+				return fmt.Errorf("%s: zeroghost <type> <ghost map> <value>", src)
+			}
+			sp.ZeroGhost = append(sp.ZeroGhost, [3]string{fs[0], fs[1], fs[2]})
+		case "stable":
+			for _, p := range strings.Fields(rest) {
+				sp.Stable[p] = true
+			}
 		case "purepkg":
 			for _, p := range strings.Fields(rest) {
 				sp.PurePkgs[p] = true
